@@ -35,6 +35,8 @@ CONSTANTS
     TrustAllSet,    \* {FALSE}: client trusts only "hk"; TRUE: known_hosts=None
     HashOmit,       \* sensitivity: hash inputs left out (normally {})
     PreferServer,   \* sensitivity: _choose_alg walks the server's list
+    ServerSkipsBanner,  \* sensitivity: the server, too, ignores lines that
+                    \* arrive before the peer's identification string
     SignBlind,      \* sensitivity: a received mpint is read as unsigned, so
                     \* an encoding that denotes a negative number (sign octet
                     \* stripped) is taken for the sender's value
@@ -84,8 +86,10 @@ Sender(m) == IF m \in {"VC", "IC", "INIT", "GREQ", "SECRET", "NKC"}
 Peer(x) == IF x = "c" THEN "s" ELSE "c"
 
 Fields(m) ==
-    CASE m = "VC" -> <<"v", "eol">>
-      [] m = "VS" -> <<"v", "eol", "banner">>
+    \* the identification exchange (RFC 4253 4.2) is edited cleartext like
+    \* the packets: lines inserted before the version line, bytes inserted
+    \* behind it, CR LF -> LF, the line delivered in pieces
+    CASE m \in {"VC", "VS"} -> <<"v", "eol", "banner", "tail", "split">>
       [] m \in {"IC", "IS"} -> <<"cookie", "kex", "hostkey", "enc_cs",
                                  "enc_sc", "mac_cs", "mac_sc", "cmp_cs",
                                  "cmp_sc", "ff", "strict", "rest", "pad">>
@@ -101,7 +105,11 @@ Fields(m) ==
 (* padding of a cleartext packet, CR before LF of a version line, banner   *)
 (* lines a server may send before its version; another encoding of the    *)
 (* same mpint value (RFC 4253 8 hashes the values e, f, p, g)              *)
-Unbound == {"eol", "banner", "pad", "menc"}
+Unbound == {"eol", "banner", "pad", "menc", "split"}
+(* only the SERVER may send lines before its version string: the client    *)
+(* skips them and does not hash them; the server refuses anything before   *)
+(* the client's version line                                               *)
+Tolerated(ed) == ed.field \in Unbound /\ ~(ed.field = "banner" /\ ed.msg = "VC")
 
 -----------------------------------------------------------------------------
 NoKI == [cookie |-> "none", kex |-> <<>>, hostkey |-> <<>>, enc_cs |-> <<>>,
@@ -211,7 +219,8 @@ HashedKI(ki) == [ki EXCEPT !.pad = "p0"]
 (* what the sender puts on the wire *)
 Content(m) ==
     LET r == side[Sender(m)] IN
-    CASE m \in {"VC", "VS"} -> [v |-> r.vown, eol |-> "crlf", banner |-> "no"]
+    CASE m \in {"VC", "VS"} -> [v |-> r.vown, eol |-> "crlf", banner |-> "no",
+                                tail |-> "no", split |-> "no"]
       [] m \in {"IC", "IS"} -> r.kiown
       [] m = "GREQ"   -> [req |-> "req", pad |-> "p0"]
       [] m = "GGRP"   -> [grp |-> r.grp, menc |-> "canon", pad |-> "p0"]
@@ -253,7 +262,10 @@ AfterKexinit(x, r, c) ==
 (* the receiver's processing of message m with content c *)
 Recv(m, c, r) ==
     CASE m \in {"VC", "VS"} ->
-            IF c.v = "vBad" THEN Fail(r) ELSE [r EXCEPT !.vpeer = c.v]
+            IF \/ c.v = "vBad"
+               \/ c.tail = "bytes"      \* garbage where a packet must start
+               \/ m = "VC" /\ c.banner = "lines" /\ ~ServerSkipsBanner
+            THEN Fail(r) ELSE [r EXCEPT !.vpeer = c.v]
       [] m = "IC" -> AfterKexinit("s", r, c)
       [] m = "IS" -> AfterKexinit("c", r, c)
       [] m = "GREQ" ->
@@ -296,6 +308,8 @@ Vals(fld, cur) ==
     CASE fld = "v"      -> {"vX", "vBad"}
       [] fld = "eol"    -> {"lf"}
       [] fld = "banner" -> {"lines"}
+      [] fld = "tail"   -> {"bytes"}
+      [] fld = "split"  -> {"pieces"}
       [] fld = "pad"    -> {"pX"}
       [] fld = "cookie" -> {"ckX"}
       [] fld \in ListFieldSet -> EditLists \ {cur}
@@ -407,11 +421,11 @@ FirstClientPref ==
                 \/ f = "hostkey" /\ x = "c"
                 \/ f \in {"mac_cs", "mac_sc"} /\ a \in AEAD
 EditDetected ==
-    (\E i \in 1..Len(edits) : edits[i].field \notin Unbound) =>
+    (\E i \in 1..Len(edits) : ~Tolerated(edits[i])) =>
         ~Done("c") /\ ~Done("s")
 (* without a binding edit the exchange ends exactly as the lists say *)
 Completion ==
-    (pc = End /\ \A i \in 1..Len(edits) : edits[i].field \in Unbound) =>
+    (pc = End /\ \A i \in 1..Len(edits) : Tolerated(edits[i])) =>
         (Done("c") <=> AllCommon)
 
 (* case table for the replay into the implementation *)
